@@ -26,12 +26,13 @@ from typing import Any
 
 from ..engine.absint import Interp, Obj
 from ..engine.cfg import CFG, own_parts
-from ..engine.nandomain import F, NanInterp
+from ..engine.nandomain import F
 from ..engine.report import AnalysisError, Run
 from ..engine.resolver import ClassInfo, FuncInfo, Program, body_walk
 from ..engine.normalize import positional
 from ..engine.util import canon, method_call, u
-from ._c06_util import Flow, HelperCalls, cmp_eval, indent_of, lifted, names_eq, pruned, seg, spliced, src_patch, stmt_patch
+from ._c06_util import (Flow, HelperCalls, cmp_eval, indent_of, lifted, names_eq, private_callee, pruned, seg, spliced, src_patch,
+                        stmt_patch, transitive_helpers, truth_atom)
 from .c13 import _self_fields, step_classes, step_interp
 
 ENGINE = "timeseries.formula_engine._formula_engine"
@@ -68,6 +69,31 @@ class _Top:
 
     def __init__(self, key: str) -> None:
         self.key = key
+
+
+class _Step:
+    """A freshly constructed step object (`Adder()` ...)."""
+
+    def __init__(self, cls: str) -> None:
+        self.cls = cls
+
+
+class _Stack:
+    """The builder's operator stack (whatever it is called locally): non-empty with `top` on top, or
+    empty; after the first pop nothing more is known about it."""
+
+    def __init__(self, top: _Top | None) -> None:
+        self.top = top
+        self.popped = 0
+
+    def __bool__(self) -> bool:
+        if self.popped:
+            raise Unknown("emptiness of the build stack after a pop")
+        return self.top is not None
+
+
+class _Out:
+    """The builder's output list (self._steps)."""
 
 
 class _NonEmpty:
@@ -109,163 +135,276 @@ class _NonEmpty:
     __hash__ = None  # type: ignore[assignment]
 
 
-def peval(e: ast.AST, env: dict[str, Any], table: dict[str, int], top: Any = None,
-          call: Any = None) -> Any:
-    """Constant folding of the small expression language used by the shift/reduce decisions.
-    `top` is the stacked operator (while the stack is untouched); `call` interprets effectful calls."""
-    def ev(x: ast.AST) -> Any:
-        return peval(x, env, table, top, call)
-
-    if isinstance(e, ast.Constant):
-        return e.value
-    if isinstance(e, ast.Name):
-        if e.id in env:
-            return env[e.id]
-        raise Unknown(e.id)
-    if isinstance(e, (ast.Tuple, ast.List, ast.Set)):
-        return tuple(ev(x) for x in e.elts)
-    if isinstance(e, ast.Call) and u(e.func) in ("repr", "str") and len(e.args) == 1 and not e.keywords:
-        v = ev(e.args[0])
-        return v.key if isinstance(v, _Top) else v
-    if isinstance(e, ast.Call) and u(e.func) == "len" and len(e.args) == 1 and u(e.args[0]) == "self._build_stack" and top is not None:
-        return _NonEmpty()
-    if isinstance(e, ast.Call) and u(e.func) == "bool" and len(e.args) == 1:
-        return bool(ev(e.args[0]))
-    if isinstance(e, ast.Subscript) and u(e.value) == "_operator_precedence":
-        k = ev(e.slice)
-        if k not in table:
-            raise Unknown(f"precedence of {k!r}")
-        return table[k]
-    if isinstance(e, ast.Subscript) and u(e.value) == "self._build_stack" and u(e.slice) == "-1" and top is not None:
-        return top
-    if isinstance(e, ast.Compare):
-        left = ev(e.left)
-        for op, right in zip(e.ops, e.comparators):
-            r = ev(right)
-            l = left.key if isinstance(left, _Top) and isinstance(op, (ast.In, ast.NotIn)) else left
-            fn = {ast.Lt: lambda: l < r, ast.LtE: lambda: l <= r, ast.Gt: lambda: l > r,
-                  ast.GtE: lambda: l >= r, ast.Eq: lambda: l == r, ast.NotEq: lambda: l != r,
-                  ast.In: lambda: l in r, ast.NotIn: lambda: l not in r,
-                  ast.Is: lambda: l is r, ast.IsNot: lambda: l is not r}.get(type(op))
-            if fn is None or isinstance(l, _Top) or isinstance(r, _Top):
-                raise Unknown(u(e))
-            if not fn():
-                return False
-            left = r
-        return True
-    if isinstance(e, ast.BoolOp):
-        is_and = isinstance(e.op, ast.And)
-        v: Any = is_and
-        for x in e.values:  # short-circuit, like Python
-            v = ev(x)
-            if bool(v) != is_and:
-                return v
-        return v
-    if isinstance(e, ast.UnaryOp) and isinstance(e.op, ast.Not):
-        return not ev(e.operand)
-    if isinstance(e, ast.IfExp):
-        return ev(e.body) if ev(e.test) else ev(e.orelse)
-    if isinstance(e, ast.Attribute) and u(e) == "self._build_stack" and top is not None:
-        return True  # non-empty in the scenario under evaluation
-    if isinstance(e, ast.Call) and call is not None:
-        return call(e)
-    raise Unknown(u(e))
-
-
 class _Decided(Exception):
-    def __init__(self, result: str) -> None:
+    def __init__(self, result: str, pushed: Any = None) -> None:
         super().__init__(result)
         self.result = result
+        self.pushed = pushed
 
 
-def decision(fn: FuncInfo, table: dict[str, int], prev: str, new: str) -> str:
-    """shift | reduce | reduce-and-stop | discard for `new` arriving with `prev` on top of the operator
-    stack: push_oper (private helpers spliced in) is interpreted on that scenario up to the end of the
-    first pass of its unwinding loop.  Any statement form is fine as long as it can be evaluated."""
-    if len(fn.params) < 2:
-        raise AnalysisError(f"{fn.qual}: operator parameter not found")
-    env: dict[str, Any] = {fn.params[1]: new}
-    st = {"pop": 0, "emit": 0, "loops": 0}
-    top = _Top(prev)
+class Shunt:
+    """Interpreter of FormulaBuilder.push_oper on one scenario (`prev` on top of the operator stack or an
+    empty stack; `new` arriving), up to the end of the first pass of the unwinding loop or to the push of
+    the new operator's step.  Statements of any shape are executed (if / match / while, early returns,
+    aliases of the stack, locals); calls of private helpers of the module / class are interpreted with
+    their arguments bound, whether or not they were spliced in beforehand."""
 
-    def cur_top() -> Any:
-        return top if st["pop"] == 0 else None
+    def __init__(self, prog: Program | None, fn: FuncInfo, table: dict[str, int], prev: str | None, new: str) -> None:
+        self.prog, self.fn, self.table = prog, fn, table
+        self.stack = _Stack(_Top(prev) if prev is not None else None)
+        self.out = _Out()
+        self.new = new
+        self.emit = 0
+        self.loops = 0
+        self.depth = 0
 
-    def call(c: ast.Call) -> Any:
-        if method_call(c, "self._build_stack", "pop") and not c.args:
-            if st["pop"]:
-                raise Unknown("second pop in one pass")
-            st["pop"] += 1
-            return top
-        if method_call(c, "self._steps", "append") and len(c.args) == 1:
-            v = ev(c.args[0])
-            if v is not top or st["emit"]:
-                raise AnalysisError(f"{fn.qual}: `{u(c)}` does not emit the stacked operator exactly once")
-            st["emit"] += 1
-            return None
-        if method_call(c, "self._build_stack", "append"):
-            raise _Decided("dispatch")
+    # ---- expressions
+    def ev(self, e: ast.AST, env: dict[str, Any]) -> Any:
+        if isinstance(e, ast.Constant):
+            return e.value
+        if isinstance(e, ast.Name):
+            if e.id in env:
+                return env[e.id]
+            raise Unknown(e.id)
+        if isinstance(e, (ast.Tuple, ast.List, ast.Set)):
+            return tuple(self.ev(x, env) for x in e.elts)
+        if isinstance(e, ast.Attribute):
+            t = u(e)
+            if t == "self._build_stack":
+                return self.stack
+            if t == "self._steps":
+                return self.out
+            raise Unknown(t)
+        if isinstance(e, ast.Subscript):
+            if u(e.value) == "_operator_precedence":
+                k = self.ev(e.slice, env)
+                k = k.key if isinstance(k, _Top) else k
+                if k not in self.table:
+                    raise Unknown(f"precedence of {k!r}")
+                return self.table[k]
+            base = self.ev(e.value, env)
+            if isinstance(base, _Stack) and u(e.slice) == "-1" and base.top is not None and not base.popped:
+                return base.top
+            raise Unknown(u(e))
+        if isinstance(e, ast.Compare):
+            left = self.ev(e.left, env)
+            for op, right in zip(e.ops, e.comparators):
+                r = self.ev(right, env)
+                l = left
+                if isinstance(op, (ast.Is, ast.IsNot)) and (l is None or r is None):
+                    res = (l is r) if isinstance(op, ast.Is) else (l is not r)
+                else:
+                    if any(isinstance(x, (_Top, _Step, _Stack, _Out)) for x in (l, r)):
+                        raise Unknown(u(e))
+                    fn = {ast.Lt: lambda: l < r, ast.LtE: lambda: l <= r, ast.Gt: lambda: l > r,
+                          ast.GtE: lambda: l >= r, ast.Eq: lambda: l == r, ast.NotEq: lambda: l != r,
+                          ast.In: lambda: l in r, ast.NotIn: lambda: l not in r,
+                          ast.Is: lambda: l is r, ast.IsNot: lambda: l is not r}.get(type(op))
+                    if fn is None:
+                        raise Unknown(u(e))
+                    res = fn()
+                if not res:
+                    return False
+                left = r
+            return True
+        if isinstance(e, ast.BoolOp):
+            is_and = isinstance(e.op, ast.And)
+            v: Any = is_and
+            for x in e.values:  # short-circuit, like Python
+                v = self.ev(x, env)
+                if bool(v) != is_and:
+                    return v
+            return v
+        if isinstance(e, ast.UnaryOp) and isinstance(e.op, ast.Not):
+            return not self.ev(e.operand, env)
+        if isinstance(e, ast.IfExp):
+            return self.ev(e.body, env) if self.ev(e.test, env) else self.ev(e.orelse, env)
+        if isinstance(e, ast.NamedExpr) and isinstance(e.target, ast.Name):
+            env[e.target.id] = self.ev(e.value, env)
+            return env[e.target.id]
+        if isinstance(e, ast.Call):
+            return self.call(e, env)
+        raise Unknown(u(e))
+
+    def call(self, c: ast.Call, env: dict[str, Any]) -> Any:
+        f = c.func
+        name = u(f)
+        if name in ("repr", "str") and len(c.args) == 1 and not c.keywords:
+            v = self.ev(c.args[0], env)
+            return v.key if isinstance(v, _Top) else v
+        if name == "bool" and len(c.args) == 1:
+            return bool(self.ev(c.args[0], env))
+        if name == "len" and len(c.args) == 1:
+            v = self.ev(c.args[0], env)
+            if isinstance(v, _Stack) and not v.popped:
+                return _NonEmpty() if v.top is not None else 0
+            raise Unknown(u(c))
+        if name == "isinstance":
+            raise Unknown(u(c))
+        if isinstance(f, ast.Attribute) and f.attr in ("pop", "append", "get"):
+            try:
+                base = self.ev(f.value, env)
+            except Unknown:
+                base = None
+            if isinstance(base, _Stack) and f.attr == "pop" and not c.args:
+                if base.popped or base.top is None:
+                    raise Unknown("second pop in one pass / pop from an empty stack")
+                base.popped += 1
+                return base.top
+            if isinstance(base, _Out) and f.attr == "append" and len(c.args) == 1:
+                v = self.ev(c.args[0], env)
+                if v is not self.stack.top or self.emit:
+                    raise AnalysisError(f"{self.fn.qual}: `{u(c)}` does not emit the stacked operator exactly once")
+                self.emit += 1
+                return None
+            if isinstance(base, _Stack) and f.attr == "append" and len(c.args) == 1:
+                raise _Decided("dispatch", self.ev(c.args[0], env))
+        if isinstance(f, ast.Name) and f.id[:1].isupper() and f.id not in env:
+            return _Step(f.id)  # a step class being instantiated
+        tgt = private_callee(self.prog, self.fn, c) if self.prog is not None else None
+        if tgt is None and isinstance(f, ast.Attribute) and isinstance(f.value, ast.Name) and f.value.id == "self" \
+                and self.prog is not None and self.fn.cls is not None:
+            tgt = self.prog.resolve_method(self.fn.cls, f.attr)  # an anchored / public sibling method
+        if tgt is not None and self.depth < 6:
+            a = tgt.node.args
+            names = [x.arg for x in a.posonlyargs + a.args]
+            if names and names[0] in ("self", "cls") and not any(u(d) == "staticmethod" for d in tgt.node.decorator_list):
+                names = names[1:]
+            frame: dict[str, Any] = {}
+            for n, v in zip(names, c.args):
+                frame[n] = self.ev(v, env)
+            for k in c.keywords:
+                if k.arg is not None:
+                    frame[k.arg] = self.ev(k.value, env)
+            dflt = dict(zip(names[len(names) - len(a.defaults):], a.defaults))
+            for n in names:
+                if n not in frame:
+                    if n not in dflt:
+                        raise Unknown(f"argument {n} of {tgt.name}")
+                    frame[n] = self.ev(dflt[n], {})
+            self.depth += 1
+            try:
+                kind, val = self.block(tgt.node.body, frame)
+            finally:
+                self.depth -= 1
+            return val if kind == "return" else None
         raise Unknown(u(c))
 
-    def ev(e: ast.AST) -> Any:
-        return peval(e, env, table, cur_top(), call)
+    # ---- patterns
+    def matches(self, p: ast.pattern, v: Any, env: dict[str, Any]) -> bool:
+        if isinstance(p, ast.MatchValue):
+            return bool(self.ev(p.value, env) == v)
+        if isinstance(p, ast.MatchSingleton):
+            return v is p.value
+        if isinstance(p, ast.MatchOr):
+            return any(self.matches(x, v, env) for x in p.patterns)
+        if isinstance(p, ast.MatchAs):
+            if p.pattern is not None and not self.matches(p.pattern, v, env):
+                return False
+            if p.name is not None:
+                env[p.name] = v
+            return True
+        raise Unknown("match pattern " + ast.unparse(p))
 
-    def block(stmts: list[ast.stmt]) -> str:
+    # ---- statements
+    def block(self, stmts: list[ast.stmt], env: dict[str, Any]) -> tuple[str, Any]:
         for s in stmts:
             if isinstance(s, ast.Pass) or (isinstance(s, ast.Expr) and isinstance(s.value, ast.Constant)):
                 continue
             if isinstance(s, ast.Assign) and len(s.targets) == 1 and isinstance(s.targets[0], ast.Name):
-                env[s.targets[0].id] = ev(s.value)
+                env[s.targets[0].id] = self.ev(s.value, env)
+            elif isinstance(s, ast.Assign) and len(s.targets) == 1 and isinstance(s.targets[0], (ast.Tuple, ast.List)) \
+                    and all(isinstance(t, ast.Name) for t in s.targets[0].elts):
+                vals = self.ev(s.value, env)
+                if not isinstance(vals, tuple) or len(vals) != len(s.targets[0].elts):
+                    raise Unknown(u(s))
+                for t, v in zip(s.targets[0].elts, vals):
+                    env[t.id] = v  # type: ignore[attr-defined]
             elif isinstance(s, ast.AnnAssign) and isinstance(s.target, ast.Name):
                 if s.value is not None:
-                    env[s.target.id] = ev(s.value)
+                    env[s.target.id] = self.ev(s.value, env)
             elif isinstance(s, ast.Expr):
-                ev(s.value)
+                self.ev(s.value, env)
             elif isinstance(s, ast.If):
-                r = block(s.body) if ev(s.test) else block(s.orelse)
-                if r != "next":
+                r = self.block(s.body, env) if self.ev(s.test, env) else self.block(s.orelse, env)
+                if r[0] != "next":
                     return r
+            elif isinstance(s, ast.Match):
+                subj = self.ev(s.subject, env)
+                for case in s.cases:
+                    if self.matches(case.pattern, subj, env) and (case.guard is None or self.ev(case.guard, env)):
+                        r = self.block(case.body, env)
+                        if r[0] != "next":
+                            return r
+                        break
             elif isinstance(s, ast.While):
-                if st["loops"]:
+                if self.loops:
                     raise Unknown("a second loop")
-                if not ev(s.test):
-                    r = block(s.orelse)
-                    if r != "next":
+                if not self.ev(s.test, env):
+                    r = self.block(s.orelse, env)
+                    if r[0] != "next":
                         return r
                     continue
-                st["loops"] += 1
-                r = block(s.body)
-                if r in ("break", "return"):
-                    raise _Decided("reduce-and-stop" if st["emit"] and st["pop"] else
-                                   "discard" if st["pop"] and not st["emit"] else
-                                   "shift" if not st["emit"] else "emit-without-pop")
-                if st["emit"] and st["pop"]:
+                self.loops += 1
+                r = self.block(s.body, env)
+                pop = self.stack.popped
+                if r[0] in ("break", "return"):
+                    raise _Decided("reduce-and-stop" if self.emit and pop else
+                                   "discard" if pop and not self.emit else
+                                   "shift" if not self.emit else "emit-without-pop")
+                if self.emit and pop:
                     raise _Decided("reduce")
-                raise AnalysisError(f"{fn.qual}: a pass of the unwinding loop neither stops nor consumes the stacked operator")
+                raise AnalysisError(f"{self.fn.qual}: a pass of the unwinding loop neither stops nor consumes the stacked operator")
             elif isinstance(s, ast.Break):
-                return "break"
+                return "break", None
             elif isinstance(s, ast.Continue):
-                return "continue"
+                return "continue", None
             elif isinstance(s, ast.Return):
-                return "return"
+                return "return", (self.ev(s.value, env) if s.value is not None else None)
+            elif isinstance(s, ast.Raise):
+                return "raise", None
+            elif isinstance(s, (ast.FunctionDef, ast.AsyncFunctionDef)):
+                continue
             else:
-                raise AnalysisError(f"{fn.qual}: statement `{u(s)[:40]}` of the shift/reduce decision not recognised")
-        return "next"
+                raise AnalysisError(f"{self.fn.qual}: statement `{u(s)[:40]}` of the shift/reduce decision not recognised")
+        return "next", None
 
+    def run(self) -> tuple[str, Any]:
+        """(decision, pushed value): decision as in decision(); pushed is what was appended to the build stack."""
+        if len(self.fn.params) < 2:
+            raise AnalysisError(f"{self.fn.qual}: operator parameter not found")
+        try:
+            self.block(self.fn.node.body, {self.fn.params[1]: self.new})
+            return "dispatch", None
+        except _Decided as d:
+            return d.result, d.pushed
+
+
+def decision(fn: FuncInfo, table: dict[str, int], prev: str, new: str, prog: Program | None = None) -> str:
+    """shift | reduce | reduce-and-stop | discard for `new` arriving with `prev` on top of the operator stack."""
+    sh = Shunt(prog, fn, table, prev, new)
     try:
-        block(fn.node.body)
-        result = "dispatch"
-    except _Decided as d:
-        result = d.result
+        result, _pushed = sh.run()
     except Unknown as exc:
         raise AnalysisError(f"{fn.qual}: cannot evaluate the shift/reduce decision for stack top `{prev}`, "
                             f"incoming `{new}`: {exc}") from exc
     if result == "dispatch":
         # the operator is pushed (or dropped, for `)`) without the unwinding loop having run
-        if st["pop"] or st["emit"]:
+        if sh.stack.popped or sh.emit:
             raise AnalysisError(f"{fn.qual}: the build stack is modified outside the unwinding loop")
         return "shift"
     return result
+
+
+def pushed_step(fn: FuncInfo, table: dict[str, int], key: str, prog: Program | None) -> str | None:
+    """Class of the step push_oper puts on an empty operator stack for `key` (None: nothing is pushed)."""
+    try:
+        result, pushed = Shunt(prog, fn, table, None, key).run()
+    except Unknown as exc:
+        raise AnalysisError(f"{fn.qual}: cannot evaluate what is pushed for operator `{key}`: {exc}") from exc
+    if result != "dispatch":
+        raise AnalysisError(f"{fn.qual}: the unwinding loop runs on an empty stack (operator `{key}`)")
+    return pushed.cls if isinstance(pushed, _Step) else None
 
 
 def check_prec(run: Run, prog: Program) -> None:
@@ -275,7 +414,7 @@ def check_prec(run: Run, prog: Program) -> None:
     matrix = {}
     for prev in BIN:
         for new in BIN:
-            d = decision(fn, table, prev, new)
+            d = decision(fn, table, prev, new, prog)
             matrix[(prev, new)] = d
             if (prev, new) in MUST_REDUCE:
                 ok, why = d == "reduce", (f"`a {prev} b {new} c` must apply `{prev}` first (left-to-right / "
@@ -289,25 +428,25 @@ def check_prec(run: Run, prog: Program) -> None:
                       f"{why} (precedence table: {prev}={table.get(prev)}, {new}={table.get(new)})",
                       node=fn.node, file=fn.file, instance=f"({prev}, {new}) -> {d}")
     for new in BIN:
-        d = decision(fn, table, "(", new)
+        d = decision(fn, table, "(", new, prog)
         run.check(d == "shift", "C05.PREC", fn.qual, f"stack top `(`, incoming `{new}` -> {d}",
                   "an open parenthesis is reduced/discarded by a binary operator", node=fn.node, file=fn.file)
     for prev in BIN:
-        d = decision(fn, table, prev, ")")
+        d = decision(fn, table, prev, ")", prog)
         run.check(d == "reduce", "C05.PREC", fn.qual, f"stack top `{prev}`, incoming `)` -> {d}",
                   "a closing parenthesis does not reduce the operators inside the parentheses",
                   node=fn.node, file=fn.file)
-    run.check(decision(fn, table, "(", ")") == "discard", "C05.PREC", fn.qual, "stack top `(`, incoming `)`",
+    run.check(decision(fn, table, "(", ")", prog) == "discard", "C05.PREC", fn.qual, "stack top `(`, incoming `)`",
               "a closing parenthesis does not discard its matching open parenthesis (and stop there)",
               node=fn.node, file=fn.file)
     for new in BIN + ("(",):
-        d = decision(fn, table, "+", "(") if new == "(" else None
-    run.check(decision(fn, table, "*", "(") == "shift", "C05.PREC", fn.qual, "incoming `(` is always shifted",
+        d = decision(fn, table, "+", "(", prog) if new == "(" else None
+    run.check(decision(fn, table, "*", "(", prog) == "shift", "C05.PREC", fn.qual, "incoming `(` is always shifted",
               "an open parenthesis triggers reductions", node=fn.node, file=fn.file)
     # functions bind tighter than any binary operator: `( X ) min Y + Z` never reduces across
     for f_op in ("max", "min", "consumption", "production"):
         for new in BIN + (")",):
-            d = decision(fn, table, f_op, new)
+            d = decision(fn, table, f_op, new, prog)
             run.check(d == "reduce", "C05.PREC", fn.qual, f"stack top `{f_op}`, incoming `{new}` -> {d}",
                       f"`{f_op}` is not applied before a following `{new}`", node=fn.node, file=fn.file)
     run.sample({"shift_reduce_matrix": {f"{p} {n}": d for (p, n), d in matrix.items()}})
@@ -351,22 +490,22 @@ def check_tab(run: Run, prog: Program) -> None:
     table = precedence_table(prog)
     fn = prog.func(f"{ENGINE}:FormulaBuilder.push_oper")
     steps = {c.name: c for c in step_classes(prog)}
-    # branches: oper == "<k>" -> self._build_stack.append(<Class>())
+    # what push_oper puts on the operator stack for each operator: interpreted, not pattern-matched (an if/elif
+    # chain, a match statement, a lookup helper ... are all the same)
+    fn = spliced(prog, fn)
     branches: dict[str, str] = {}
-    pname = fn.params[1] if len(fn.params) > 1 else "oper"
-    for n in ast.walk(fn.node):
-        if isinstance(n, ast.If) and isinstance(n.test, ast.Compare) and len(n.test.ops) == 1 and isinstance(n.test.ops[0], ast.Eq):
-            a, b = n.test.left, n.test.comparators[0]
-            if u(a) == pname and isinstance(b, ast.Constant):
-                key = b.value
-            elif u(b) == pname and isinstance(a, ast.Constant):
-                key = a.value
-            else:
-                continue
-            calls = [c for s in n.body for c in ast.walk(s) if isinstance(c, ast.Call)
-                     and method_call(c, "self._build_stack", "append")]
-            if calls and isinstance(calls[0].args[0], ast.Call):
-                branches[key] = u(calls[0].args[0].func)
+    scope = [fn.node] + [h.node for h in transitive_helpers(Flow(prog, fn))]
+    literals = {x.value for nd in scope for x in ast.walk(nd) if isinstance(x, ast.Constant) and isinstance(x.value, str)
+                and len(x.value) <= 16 and " " not in x.value and x.value}
+    for key in sorted(set(table) | literals):
+        try:
+            cls_name = pushed_step(fn, table, key, prog)
+        except AnalysisError:
+            if key in table:
+                raise
+            continue  # a string literal that is not an operator (and cannot even be looked up)
+        if cls_name is not None:
+            branches[key] = cls_name
     for key in table:
         if key == ")":
             continue
@@ -383,7 +522,8 @@ def check_tab(run: Run, prog: Program) -> None:
     tk = prog.func(f"{TOK}:Tokenizer.__next__")
     run.analysed(tk.qual)
     ops: set[str] = set()
-    for n in ast.walk(tk.node):
+    tk_scope = [tk.node] + [h.node for h in transitive_helpers(Flow(prog, tk))]
+    for n in (x for nd in tk_scope for x in ast.walk(nd)):
         if isinstance(n, ast.If) and isinstance(n.test, ast.Compare) and isinstance(n.test.ops[0], ast.In) \
                 and any(isinstance(r, ast.Return) and "TokenType.OPER" in u(r) for r in n.body):
             ops |= {e.value for e in n.test.comparators[0].elts if isinstance(e, ast.Constant)}  # type: ignore[attr-defined]
@@ -391,7 +531,7 @@ def check_tab(run: Run, prog: Program) -> None:
               f"tokenizer operators {sorted(ops)}",
               "the tokenizer's operator characters are not exactly + - * / ( ) or lack a precedence",
               node=tk.node, file=tk.file)
-    emitted = {n.attr for n in ast.walk(tk.node) if isinstance(n, ast.Attribute) and u(n.value) == "TokenType"}
+    emitted = {n.attr for nd in tk_scope for n in ast.walk(nd) if isinstance(n, ast.Attribute) and u(n.value) == "TokenType"}
     fs = prog.func(f"{RFB}:ResampledFormulaBuilder.from_string")
     run.analysed(fs.qual)
     handled = {n.attr for n in ast.walk(fs.node) if isinstance(n, ast.Attribute) and u(n.value) == "TokenType"}
@@ -420,8 +560,11 @@ def check_tab(run: Run, prog: Program) -> None:
 
         opers = [(n, c) for n, c in ffl.calls(lambda c: method_call(c, "self", "push_oper")) if n in region]
         mets = [(n, c) for n, c in ffl.calls(lambda c: method_call(c, "self", "push_component_metric")) if n in region]
-        ok = ok and len(opers) == 1 and len(mets) == 1 \
-            and not any(isinstance(x, (ast.Break, ast.Continue)) for st in lp.ast.body for x in ast.walk(st))  # type: ignore[union-attr]
+        body0 = [m for m, lab in ffl.cfg.succ[lp.id] if lab == "iter"]
+        pushes = [n for n, _c in opers + mets]
+        ok = ok and len(opers) == 1 and len(mets) == 1 and bool(body0) \
+            and not any(isinstance(x, ast.Break) for st in lp.ast.body for x in ast.walk(st)) \
+            and (body0[0] in pushes or ffl.cfg.path(body0[0], [lp.id], avoid=pushes, edge_ok=lambda a, b, lab: not lab.startswith("exc:")) is None)  # type: ignore[union-attr]
         if ok:
             (on, oc), (mn, mc) = opers[0], mets[0]
             oparams = [p for p in prog.func(f"{ENGINE}:FormulaBuilder.push_oper").params if p != "self"]
@@ -829,27 +972,105 @@ def check_eval(run: Run, prog: Program) -> None:
             t = o.node if o is not None and o.kind == "expr" else None
             ok = ok and isinstance(t, ast.Tuple) and [u(x) for x in t.elts] == ["self._steps", "self._metric_fetchers"]
         ok = ok and bool(rets)
+    if not whiles:
+        # bulk form: the output is extended with the operator stack reversed (top first), nothing else touches either
+        ext = nfl.calls(lambda c: method_call(c, "self._steps", "extend") and len(c.args) == 1 and not c.keywords)
+        touch = [c for _n, c in nfl.calls(lambda c: isinstance(c.func, ast.Attribute) and u(c.func.value) in (
+            "self._build_stack", "self._steps"))]
+        ok = len(ext) == 1
+        if ok:
+            en, ec = ext[0]
+            o = nfl.origin1(ec.args[0], en)
+            a = o.node if o is not None and o.kind == "expr" else None
+            rev = (isinstance(a, ast.Call) and u(a.func) == "reversed" and len(a.args) == 1 and u(a.args[0]) == "self._build_stack") \
+                or (isinstance(a, ast.Subscript) and u(a.value) == "self._build_stack" and u(a.slice) == "::-1")
+            rest = [c for c in touch if c is not ec]
+            ok = bool(rev) and all(method_call(c, "self._build_stack", "clear") and nfl.cfg.path(
+                nfl.node_of(c), [en], include_src=False) is None for c in rest) \
+                and nfl.cfg.path(nfl.cfg.entry, [nfl.cfg.exit], avoid=[en], edge_ok=lambda a_, b_, lab: not lab.startswith("exc:")) is None
+            rets = nfl.returns()
+            for r in rets:
+                v = nfl.cfg.nodes[r].ast.value  # type: ignore[union-attr]
+                o2 = nfl.origin1(v, r) if v is not None else None
+                t = o2.node if o2 is not None and o2.kind == "expr" else None
+                ok = ok and isinstance(t, ast.Tuple) and [u(x) for x in t.elts] == ["self._steps", "self._metric_fetchers"]
+            ok = ok and bool(rets)
     run.check(ok, "C05.EVAL", fin.qual, "drain the operator stack LIFO",
               "finalize() does not move the remaining operators to the output in LIFO order",
               node=fin.node, file=fin.file)
     pm = prog.func(f"{ENGINE}:FormulaBuilder.push_metric")
     run.analysed(pm.qual)
     pfl = Flow(prog, spliced(prog, pm))
-    sd = pfl.calls(lambda c: method_call(c, "self._metric_fetchers", "setdefault"))
+    pcfg = pfl.cfg
+    TABLE = "self._metric_fetchers"
+
+    def is_name(e: ast.AST, nid: int | None) -> bool:
+        o = pfl.origin(e, nid)
+        return bool(o) and all(q.kind == "param" and q.name == pm.params[1] for q in o)
+
+    def lookup(e: ast.AST | None, nid: int | None) -> str | None:
+        """'get' / 'index' / 'setdefault' when `e` reads the fetcher table under the metric's name."""
+        if isinstance(e, ast.Call) and isinstance(e.func, ast.Attribute) and u(e.func.value) == TABLE and e.args and is_name(e.args[0], nid):
+            if e.func.attr == "get" and len(e.args) == 1 and not e.keywords:
+                return "get"
+            if e.func.attr == "setdefault" and len(e.args) == 2:
+                return "setdefault"
+        if isinstance(e, ast.Subscript) and isinstance(e.ctx, ast.Load) and u(e.value) == TABLE and is_name(e.slice, nid):
+            return "index"
+        return None
+
+    def known(present: bool) -> Any:
+        def atom(e: ast.AST, nid: int) -> bool | None:
+            if isinstance(e, ast.Compare) and len(e.ops) == 1 and isinstance(e.ops[0], (ast.In, ast.NotIn)) \
+                    and u(e.comparators[0]) in (TABLE, TABLE + ".keys()") and is_name(e.left, nid):
+                return present if isinstance(e.ops[0], ast.In) else not present
+            ta = truth_atom(e)
+            if ta is not None:
+                o = pfl.origin(ta[0], nid, through_helpers=False)
+                if o and all(q.kind == "expr" and lookup(q.node, q.nid) == "get" for q in o):
+                    return (not present) if ta[1] else present
+            return None
+        return lifted(pfl, atom)
+
+    normal_e = lambda a, b, lab: not lab.startswith("exc:")  # noqa: E731
     apps = pfl.calls(lambda c: method_call(c, "self._steps", "append"))
-    ok = len(sd) == 1 and len(apps) == 1 and len(apps[0][1].args) == 1
+    stores = [n.id for n in pcfg.nodes if n.id in pfl.live and any(
+        isinstance(t, ast.Subscript) and u(t.value) == TABLE for t in pfl._writes(n.id))]
+    others = [c for _n, c in pfl.calls(lambda c: isinstance(c.func, ast.Attribute) and u(c.func.value) == TABLE
+                                        and c.func.attr not in ("get", "setdefault", "keys"))]
+    ok = len(apps) == 1 and len(apps[0][1].args) == 1 and not others \
+        and pcfg.path(pcfg.entry, [pcfg.exit], avoid=[apps[0][0]], edge_ok=normal_e) is None
     if ok:
-        sn, sc = sd[0]
-        sa = positional(sc, ["key", "default"])
-        mk = pfl.origin1(sa["default"], sn) if "default" in sa else None
-        # one fetcher per name: keyed by the metric's name, a fresh MetricFetcher only as the default,
-        # and what is appended to the steps is whatever the table then holds
-        ok = "key" in sa and all(o.kind == "param" and o.name == pm.params[1] for o in pfl.origin(sa["key"], sn)) \
-            and mk is not None and mk.kind == "expr" and isinstance(mk.node, ast.Call) and u(mk.node.func).split("[")[0] == "MetricFetcher" \
-            and pfl.is_node(apps[0][1].args[0], sc, apps[0][0]) \
-            and not [c for _n, c in pfl.calls(lambda c: isinstance(c.func, ast.Attribute) and u(c.func.value) == "self._metric_fetchers") if c is not sc] \
-            and not [x for x in ast.walk(pfl.fn.node) if isinstance(x, ast.Subscript) and u(x.value) == "self._metric_fetchers"
-                     and isinstance(x.ctx, (ast.Store, ast.Del))]
+        an, ac = apps[0]
+        # (a) the name is already known: what is appended is the fetcher the table holds; the table is not written
+        e_known = pruned(pcfg, known(True), normal_only=False)
+        leaves = pfl.origin(ac.args[0], an, scenario=lambda _f: e_known)
+        ok = bool(leaves) and all(q.kind == "expr" and lookup(q.node, q.nid) is not None for q in leaves) \
+            and pcfg.path(pcfg.entry, stores, edge_ok=e_known) is None
+        # (b) first use of the name: a new MetricFetcher is made, stored under the name, and appended
+        e_new = pruned(pcfg, known(False), normal_only=False)
+        leaves = pfl.origin(ac.args[0], an, scenario=lambda _f: e_new)
+        for q in leaves:
+            kind = lookup(q.node, q.nid) if q.kind == "expr" else None
+            if kind == "setdefault":
+                d = pfl.origin1(q.node.args[1], q.nid)  # type: ignore[union-attr]
+                ok = ok and d is not None and d.kind == "expr" and isinstance(d.node, ast.Call) and u(d.node.func).split("[")[0] == "MetricFetcher"
+            elif q.kind == "expr" and isinstance(q.node, ast.Call) and u(q.node.func).split("[")[0] == "MetricFetcher":
+                mine = [s_ for s_ in stores if isinstance(pcfg.nodes[s_].ast, ast.Assign)
+                        and is_name(pcfg.nodes[s_].ast.targets[0].slice, s_)  # type: ignore[union-attr]
+                        and pfl.is_node(pcfg.nodes[s_].ast.value, q.node, s_)]  # type: ignore[union-attr]
+                ok = ok and len(mine) == 1 and len(stores) == 1 \
+                    and pcfg.path(pcfg.entry, [an], avoid=mine, edge_ok=e_new) is None
+            elif kind == "index" and len(stores) == 1 and isinstance(pcfg.nodes[stores[0]].ast, ast.Assign):
+                # read back after `table[name] = MetricFetcher(...)`
+                st_ = pcfg.nodes[stores[0]].ast
+                d = pfl.origin1(st_.value, stores[0])  # type: ignore[union-attr]
+                ok = ok and is_name(st_.targets[0].slice, stores[0]) and d is not None and d.kind == "expr" \
+                    and isinstance(d.node, ast.Call) and u(d.node.func).split("[")[0] == "MetricFetcher" \
+                    and pcfg.path(pcfg.entry, [an], avoid=stores, edge_ok=e_new) is None  # type: ignore[union-attr]
+            else:
+                ok = False
+        ok = ok and bool(leaves)
     run.check(ok, "C05.EVAL", pm.qual, "fetcher = fetchers.setdefault(name, ...); steps.append(fetcher)",
               "a metric used twice does not share one fetcher (its stream would be read twice per round)",
               node=pm.node, file=pm.file)
@@ -888,7 +1109,7 @@ def check_model(run: Run, prog: Program, seed: int, max_ops: int = 4) -> None:
 
     def dec(prev: str, new: str) -> str:
         if (prev, new) not in cache:
-            cache[(prev, new)] = decision(fn, table, prev, new)
+            cache[(prev, new)] = decision(fn, table, prev, new, prog)
         return cache[(prev, new)]
 
     def compile_tokens(tokens: list[str]) -> list[str]:
